@@ -1,3 +1,778 @@
-use vh::runner::Ctx;
+//! C08 — memcpy/memmove/memset/memcmp/bcmp of tiny-start match C for every length, alignment and
+//! overlap, and never write outside the destination. Carrier (i): the repository's
+//! `tiny-start/src/symbols/mem.rs` compiled in `memsyms` (see memsyms/build.rs).
+//!
+//! Oracle. Every operand lives in a *region* that exists twice with identical initial bytes:
+//! the actual one inside a slab whose first and last byte abut PROT_NONE pages, and a model
+//! (`Vec<u8>`). The function under test runs on the actual region, a byte-loop reference built on
+//! `read_volatile`/`write_volatile` (cannot be turned into a mem* call) runs on the model, then
+//! the two regions are compared byte for byte - destination, source, padding and the 64-byte red
+//! zones on both sides alike. So one comparison decides: destination contents, "source unchanged"
+//! (non-overlapping copies), "no byte outside the destination written". Operands placed at the
+//! end (start) of a slab END (START) exactly at a PROT_NONE page: an access outside the operand
+//! on that side faults, the worker dies and the orchestrator's crash policy reports it.
+use proptest::prelude::*;
+use serde::{Deserialize, Serialize};
 
-pub fn run(_ctx: &Ctx) {}
+use vh::runner::{CaseReport, CaseResult, Ctx, Failure};
+use vh::util::{Guarded, PAGE};
+use vh::{ensure, fail};
+
+/// red zone on each side of a payload
+const RZ: usize = 64;
+/// largest n of the sampled sub-checks
+const MAX_N: usize = 1 << 20;
+/// slab size (multiple of PAGE, so both slab ends abut PROT_NONE pages)
+const CAP: usize = 3 << 20;
+/// start offset of a `Mid` region inside its slab (multiple of 64)
+const MID: usize = 2 * PAGE;
+
+// ------------------------------------------------------------------------------------ cases
+
+#[derive(Serialize, Deserialize, Clone, Copy, Debug, PartialEq, Eq)]
+pub enum At {
+    /// in the middle of a slab, 64-byte red zones on both sides, free misalignment
+    Mid,
+    /// payload ends exactly at the PROT_NONE page after the slab (red zone in front)
+    End,
+    /// payload starts exactly after the PROT_NONE page in front of the slab (red zone behind)
+    Start,
+}
+
+#[derive(Serialize, Deserialize, Clone, Copy, Debug, PartialEq, Eq)]
+pub enum CopyOp {
+    Memcpy,
+    Memmove,
+}
+
+/// Non-overlapping copy: destination and source in different slabs.
+#[derive(Serialize, Deserialize, Clone, Debug)]
+pub struct CopyCase {
+    pub op: CopyOp,
+    pub n: usize,
+    /// misalignment of dest / src relative to 16 (only honoured for `At::Mid`)
+    pub dmis: u8,
+    pub smis: u8,
+    pub dst_at: At,
+    pub src_at: At,
+    /// which slab holds the destination (address order of the operands)
+    pub swap: bool,
+    pub salt: u8,
+}
+
+/// memmove with both operands inside one buffer; `delta` = dest - src in bytes.
+#[derive(Serialize, Deserialize, Clone, Debug)]
+pub struct MoveCase {
+    pub n: usize,
+    pub delta: i64,
+    /// misalignment of the lower operand (only for `At::Mid`)
+    pub mis: u8,
+    pub at: At,
+    pub salt: u8,
+}
+
+#[derive(Serialize, Deserialize, Clone, Debug)]
+pub struct SetCase {
+    pub n: usize,
+    /// the `int c` argument as passed (C converts it to unsigned char)
+    pub c: i32,
+    pub mis: u8,
+    pub at: At,
+    pub salt: u8,
+}
+
+#[derive(Serialize, Deserialize, Clone, Debug)]
+pub struct CmpCase {
+    pub n: usize,
+    /// index of the first differing byte; None = the operands are equal
+    pub pos: Option<usize>,
+    /// s1[pos] = a, s2[pos] = b (a != b)
+    pub a: u8,
+    pub b: u8,
+    pub m1: u8,
+    pub m2: u8,
+    pub at1: At,
+    pub at2: At,
+    pub salt: u8,
+}
+
+// ------------------------------------------------------------------------------------ references
+
+unsafe fn ref_memcpy(d: *mut u8, s: *const u8, n: usize) {
+    let mut i = 0;
+    while i < n {
+        d.add(i).write_volatile(s.add(i).read_volatile());
+        i += 1;
+    }
+}
+
+unsafe fn ref_memmove(d: *mut u8, s: *const u8, n: usize) {
+    if (d as usize) <= (s as usize) {
+        ref_memcpy(d, s, n);
+    } else {
+        let mut i = n;
+        while i > 0 {
+            i -= 1;
+            d.add(i).write_volatile(s.add(i).read_volatile());
+        }
+    }
+}
+
+unsafe fn ref_memset(d: *mut u8, c: i32, n: usize) {
+    // C11 7.24.6.1: "copies the value of c (converted to an unsigned char)"
+    let v = c as u8;
+    let mut i = 0;
+    while i < n {
+        d.add(i).write_volatile(v);
+        i += 1;
+    }
+}
+
+/// C11 7.24.4: the sign is that of the difference of the first differing pair, both
+/// interpreted as unsigned char. Returns -1/0/1.
+unsafe fn ref_memcmp(a: *const u8, b: *const u8, n: usize) -> i32 {
+    let mut i = 0;
+    while i < n {
+        let x = a.add(i).read_volatile();
+        let y = b.add(i).read_volatile();
+        if x != y {
+            return if x < y { -1 } else { 1 };
+        }
+        i += 1;
+    }
+    0
+}
+
+// ------------------------------------------------------------------------------------ world
+
+#[derive(Clone, Copy, Default)]
+struct Reg {
+    off: usize,
+    len: usize,
+    used: bool,
+}
+
+pub struct World {
+    slabs: [Guarded; 2],
+    models: [Vec<u8>; 2],
+    regs: [Reg; 2],
+}
+
+/// Where a mismatch between actual and model memory lies relative to the destination.
+struct Mismatch {
+    reg: usize,
+    off: usize,
+    got: u8,
+    want: u8,
+}
+
+impl World {
+    pub fn new() -> World {
+        World { slabs: [Guarded::at_end(CAP), Guarded::at_end(CAP)], models: [Vec::new(), Vec::new()], regs: [Reg::default(); 2] }
+    }
+
+    fn reset(&mut self) {
+        self.regs = [Reg::default(); 2];
+    }
+
+    /// Position region `r` (length `len`) in slab `r` and fill actual and model with the same
+    /// pattern: consecutive bytes always differ, period 251*256.
+    fn place(&mut self, r: usize, at: At, len: usize, salt: u8) {
+        assert!(MID + len <= CAP - PAGE, "region too large");
+        let off = match at {
+            At::Mid => MID,
+            At::Start => 0,
+            At::End => CAP - len,
+        };
+        self.regs[r] = Reg { off, len, used: true };
+        let m = &mut self.models[r];
+        m.clear();
+        m.resize(len, 0);
+        let act = unsafe { self.slabs[r].as_ptr().add(off) };
+        let mut a: u8 = 0;
+        let mut b: u8 = 0;
+        for (j, mb) in m.iter_mut().enumerate() {
+            let v = a.wrapping_add(b).wrapping_add(salt);
+            *mb = v;
+            unsafe { act.add(j).write(v) };
+            a += 1;
+            if a == 251 {
+                a = 0;
+                b = b.wrapping_add(29);
+            }
+        }
+    }
+
+    fn act(&self, r: usize, off: usize) -> *mut u8 {
+        debug_assert!(off <= self.regs[r].len);
+        unsafe { self.slabs[r].as_ptr().add(self.regs[r].off + off) }
+    }
+
+    fn mdl(&mut self, r: usize, off: usize) -> *mut u8 {
+        debug_assert!(off <= self.regs[r].len);
+        unsafe { self.models[r].as_mut_ptr().add(off) }
+    }
+
+    /// Write one byte to the actual and the model region.
+    fn poke(&mut self, r: usize, off: usize, v: u8) {
+        assert!(off < self.regs[r].len);
+        self.models[r][off] = v;
+        unsafe { self.act(r, off).write(v) };
+    }
+
+    /// dest[i] = !src[i] in both copies, so that every byte of a correct copy changes dest.
+    fn invert_from(&mut self, rd: usize, doff: usize, rs: usize, soff: usize, n: usize) {
+        assert!(doff + n <= self.regs[rd].len && soff + n <= self.regs[rs].len);
+        for i in 0..n {
+            let v = !self.models[rs][soff + i];
+            self.models[rd][doff + i] = v;
+            unsafe { self.act(rd, doff + i).write(v) };
+        }
+    }
+
+    /// Compare every used region with its model. `dst` = (region, offset, n) of the destination
+    /// range (None: the operation has no destination, any difference is an illegal write).
+    fn verify(&self, op: &str, dst: Option<(usize, usize, usize)>, shape: &str, descr: &dyn Fn() -> String) -> Result<(), Failure> {
+        let mut outside: Option<Mismatch> = None;
+        let mut inside: Option<Mismatch> = None;
+        let mut n_out = 0usize;
+        let mut n_in = 0usize;
+        for r in 0..2 {
+            let reg = self.regs[r];
+            if !reg.used {
+                continue;
+            }
+            let act = unsafe { core::slice::from_raw_parts(self.slabs[r].as_ptr().add(reg.off) as *const u8, reg.len) };
+            let mdl = &self.models[r][..];
+            if act == mdl {
+                continue;
+            }
+            for j in 0..reg.len {
+                if act[j] != mdl[j] {
+                    let is_in = matches!(dst, Some((dr, doff, n)) if dr == r && j >= doff && j < doff + n);
+                    let mm = Mismatch { reg: r, off: j, got: act[j], want: mdl[j] };
+                    if is_in {
+                        n_in += 1;
+                        inside.get_or_insert(mm);
+                    } else {
+                        n_out += 1;
+                        outside.get_or_insert(mm);
+                    }
+                }
+            }
+        }
+        if let Some(m) = outside {
+            let (wherep, rel) = match dst {
+                Some((dr, doff, n)) if dr == m.reg => {
+                    if m.off < doff {
+                        ("before-start", format!("{} byte(s) before dest[0]", doff - m.off))
+                    } else {
+                        ("after-end", format!("{} byte(s) past dest[n-1]", m.off + 1 - (doff + n)))
+                    }
+                }
+                Some(_) => ("other-buffer", format!("offset {} of the buffer that does not hold the destination", m.off)),
+                None => ("operand", format!("offset {} of operand buffer {}", m.off, m.reg)),
+            };
+            let cls = if dst.is_some() { "wrote-outside-dest" } else { "modified-operand" };
+            fail!(format!("{op}|{cls}|{wherep}"), "{}: {} byte(s) outside the destination range changed; first: {} now {:#04x}, must stay {:#04x} ({} destination bytes also wrong)", descr(), n_out, rel, m.got, m.want, n_in);
+        }
+        if let Some(m) = inside {
+            let (_, doff, _) = dst.unwrap();
+            fail!(format!("{op}|dest-wrong|{shape}"), "{}: {} destination byte(s) wrong; first: dest[{}] = {:#04x}, expected {:#04x}", descr(), n_in, m.off - doff, m.got, m.want);
+        }
+        Ok(())
+    }
+}
+
+/// (region length, payload offset) of one operand of length n.
+fn operand_region(at: At, mis: usize, n: usize) -> (usize, usize) {
+    match at {
+        At::Mid => (RZ + mis + n + RZ, RZ + mis),
+        At::End => (RZ + n, RZ),
+        At::Start => (n + RZ, 0),
+    }
+}
+
+fn at_class(rep: &mut CaseReport, at: At) {
+    match at {
+        At::Mid => {}
+        At::End => rep.class("ends-at-guard-page"),
+        At::Start => rep.class("starts-at-guard-page"),
+    }
+}
+
+const WORD: usize = core::mem::size_of::<usize>();
+
+// ------------------------------------------------------------------------------------ checks
+
+pub fn check_copy(w: &mut World, c: &CopyCase) -> CaseResult {
+    let mut rep = CaseReport::new();
+    let n = c.n.min(MAX_N);
+    let dmis = if c.dst_at == At::Mid { (c.dmis & 63) as usize } else { 0 };
+    let smis = if c.src_at == At::Mid { (c.smis & 63) as usize } else { 0 };
+    let (rd, rs) = if c.swap { (1, 0) } else { (0, 1) };
+    let (dlen, doff) = operand_region(c.dst_at, dmis, n);
+    let (slen, soff) = operand_region(c.src_at, smis, n);
+    w.reset();
+    w.place(rd, c.dst_at, dlen, c.salt);
+    w.place(rs, c.src_at, slen, c.salt.wrapping_add(0x5b));
+    w.invert_from(rd, doff, rs, soff, n);
+
+    let (md, ms) = (w.mdl(rd, doff), w.mdl(rs, soff) as *const u8);
+    let (ad, asrc) = (w.act(rd, doff), w.act(rs, soff) as *const u8);
+    let name = match c.op {
+        CopyOp::Memcpy => "memcpy",
+        CopyOp::Memmove => "memmove",
+    };
+    let ret = unsafe {
+        ref_memcpy(md, ms, n); // disjoint: memmove == memcpy
+        match c.op {
+            CopyOp::Memcpy => memsyms::ts_memcpy(ad, asrc, n),
+            CopyOp::Memmove => memsyms::ts_memmove(ad, asrc, n),
+        }
+    };
+    let descr = || format!("{name}(dest={:#x} [..{:x}], src={:#x} [..{:x}], n={n}) {c:?}", ad as usize & 0xfff, ad as usize & 15, asrc as usize & 0xfff, asrc as usize & 15);
+    ensure!(ret == ad, format!("{name}|wrong-return|"), "{}: returned {:p}, expected dest {:p}", descr(), ret, ad);
+    let shape = if n < 16 { "n<16 disjoint" } else { "n>=16 disjoint" };
+    w.verify(name, Some((rd, doff, n)), shape, &descr)?;
+
+    let d_al = ad as usize % WORD;
+    let s_al = asrc as usize % WORD;
+    rep.nontrivial_if(n >= 16 && (ad as usize % 16 != 0 || asrc as usize % 16 != 0));
+    rep.class_if(n == 0, "n=0");
+    rep.class_if(n > 0 && n < 16, "byte-path");
+    rep.class_if(n >= 16 && d_al == s_al, "word-path-coaligned");
+    rep.class_if(n >= 16 && d_al != s_al, "word-path-src-misaligned");
+    rep.class_if(n >= 16 && d_al != 0, "dest-unaligned-head");
+    rep.class_if(n >= 65536, "large");
+    rep.class_if((ad as usize) < (asrc as usize), "dest-below-src");
+    rep.class_if((ad as usize) > (asrc as usize), "dest-above-src");
+    match c.dst_at {
+        At::End => rep.class("dest-ends-at-guard-page"),
+        At::Start => rep.class("dest-starts-at-guard-page"),
+        At::Mid => {}
+    }
+    match c.src_at {
+        At::End => rep.class("src-ends-at-guard-page"),
+        At::Start => rep.class("src-starts-at-guard-page"),
+        At::Mid => {}
+    }
+    Ok(rep)
+}
+
+pub fn check_move(w: &mut World, c: &MoveCase) -> CaseResult {
+    let mut rep = CaseReport::new();
+    let n = c.n.min(MAX_N);
+    let lim = (n + 64) as i64;
+    let delta = c.delta.clamp(-lim, lim);
+    let ad_ = delta.unsigned_abs() as usize;
+    let mis = if c.at == At::Mid { (c.mis & 63) as usize } else { 0 };
+    let (len, lower) = operand_region(c.at, mis, n + ad_);
+    let (doff, soff) = if delta >= 0 { (lower + ad_, lower) } else { (lower, lower + ad_) };
+    w.reset();
+    w.place(0, c.at, len, c.salt);
+
+    let (md, ms) = (w.mdl(0, doff), w.mdl(0, soff) as *const u8);
+    let (ad, asrc) = (w.act(0, doff), w.act(0, soff) as *const u8);
+    let ret = unsafe {
+        ref_memmove(md, ms, n);
+        memsyms::ts_memmove(ad, asrc, n)
+    };
+    let overlap = ad_ < n;
+    let shape = match (n < 16, overlap, delta > 0) {
+        (true, false, _) => "n<16 disjoint",
+        (false, false, _) => "n>=16 disjoint",
+        (true, true, true) => "n<16 overlap dest>src",
+        (false, true, true) => "n>=16 overlap dest>src",
+        (true, true, false) => "n<16 overlap dest<=src",
+        (false, true, false) => "n>=16 overlap dest<=src",
+    };
+    let descr = || format!("memmove(dest=src{delta:+}, n={n}; dest&15={:x}, src&15={:x}) {c:?}", ad as usize & 15, asrc as usize & 15);
+    ensure!(ret == ad, "memmove|wrong-return|", "{}: returned {:p}, expected dest {:p}", descr(), ret, ad);
+    w.verify("memmove", Some((0, doff, n)), shape, &descr)?;
+
+    rep.nontrivial_if((overlap && n > 0 && delta != 0) || (n >= 16 && (ad as usize % 16 != 0 || asrc as usize % 16 != 0)));
+    rep.class_if(n == 0, "n=0");
+    rep.class_if(delta == 0 && n > 0, "dest==src");
+    rep.class_if(overlap && delta > 0, "overlap-dest-above-src");
+    rep.class_if(overlap && delta < 0, "overlap-dest-below-src");
+    rep.class_if(overlap && delta > 0 && n >= 16, "overlap-backward-word-path");
+    rep.class_if(overlap && delta < 0 && n >= 16, "overlap-forward-word-path");
+    rep.class_if(overlap && delta != 0 && ad_ < WORD && n >= 16, "overlap-closer-than-a-word");
+    rep.class_if(!overlap && ad_ == n && n > 0, "adjacent");
+    rep.class_if(!overlap, "disjoint");
+    rep.class_if(n >= 16 && (ad as usize % WORD) != (asrc as usize % WORD), "word-path-src-misaligned");
+    rep.class_if(n >= 65536, "large");
+    at_class(&mut rep, c.at);
+    Ok(rep)
+}
+
+pub fn check_set(w: &mut World, c: &SetCase) -> CaseResult {
+    let mut rep = CaseReport::new();
+    let n = c.n.min(MAX_N);
+    let mis = if c.at == At::Mid { (c.mis & 63) as usize } else { 0 };
+    let (len, off) = operand_region(c.at, mis, n);
+    // make sure the fill byte differs from what the destination holds: choose the salt so that
+    // no byte of the pattern is fixed... the pattern takes all values, so instead pre-fill the
+    // destination with !fill.
+    w.reset();
+    w.place(0, c.at, len, c.salt);
+    let fill = c.c as u8;
+    for i in 0..n {
+        w.poke(0, off + i, !fill);
+    }
+    let md = w.mdl(0, off);
+    let ad = w.act(0, off);
+    let ret = unsafe {
+        ref_memset(md, c.c, n);
+        memsyms::ts_memset(ad, c.c, n)
+    };
+    let descr = || format!("memset(s&15={:x}, c={:#x}, n={n}) {c:?}", ad as usize & 15, c.c);
+    ensure!(ret == ad, "memset|wrong-return|", "{}: returned {:p}, expected s {:p}", descr(), ret, ad);
+    let shape = if n < 16 { "n<16" } else { "n>=16" };
+    w.verify("memset", Some((0, off, n)), shape, &descr)?;
+
+    rep.nontrivial_if(n >= 16 && ad as usize % 16 != 0);
+    rep.class_if(n == 0, "n=0");
+    rep.class_if(n > 0 && n < 16, "byte-path");
+    rep.class_if(n >= 16, "word-path");
+    rep.class_if(n >= 16 && ad as usize % WORD != 0, "word-path-unaligned-head");
+    rep.class_if(fill >= 0x80, "fill-high-bit");
+    rep.class_if(c.c as u32 > 0xff, "c-wider-than-a-byte");
+    rep.class_if(n >= 65536, "large");
+    at_class(&mut rep, c.at);
+    Ok(rep)
+}
+
+pub fn check_cmp(w: &mut World, c: &CmpCase) -> CaseResult {
+    let mut rep = CaseReport::new();
+    let n = c.n.min(MAX_N);
+    let pos = c.pos.filter(|&p| p < n && c.a != c.b);
+    let m1 = if c.at1 == At::Mid { (c.m1 & 63) as usize } else { 0 };
+    let m2 = if c.at2 == At::Mid { (c.m2 & 63) as usize } else { 0 };
+    let (l1, o1) = operand_region(c.at1, m1, n);
+    let (l2, o2) = operand_region(c.at2, m2, n);
+    w.reset();
+    w.place(0, c.at1, l1, c.salt);
+    w.place(1, c.at2, l2, c.salt.wrapping_add(0x5b));
+    // s2 = s1 (common content, contains NUL bytes and bytes >= 0x80 from the pattern)
+    for i in 0..n {
+        let v = w.models[0][o1 + i];
+        w.poke(1, o2 + i, v);
+    }
+    if let Some(p) = pos {
+        w.poke(0, o1 + p, c.a);
+        w.poke(1, o2 + p, c.b);
+        // everything after the first difference differs the other way round
+        let (t1, t2) = if c.a < c.b { (0xffu8, 0x00u8) } else { (0x00u8, 0xffu8) };
+        for i in p + 1..n {
+            w.poke(0, o1 + i, t1);
+            w.poke(1, o2 + i, t2);
+        }
+    }
+    // the bytes next to the operands differ between the two buffers (a comparison running one
+    // byte too far, or starting one byte early, sees a difference)
+    if c.at1 != At::Start && c.at2 != At::Start {
+        w.poke(0, o1 - 1, 0x11);
+        w.poke(1, o2 - 1, 0xee);
+    }
+    if c.at1 != At::End && c.at2 != At::End {
+        w.poke(0, o1 + n, 0xee);
+        w.poke(1, o2 + n, 0x11);
+    }
+    let (p1, p2) = (w.act(0, o1) as *const u8, w.act(1, o2) as *const u8);
+    let (q1, q2) = (w.mdl(0, o1) as *const u8, w.mdl(1, o2) as *const u8);
+    let want = unsafe { ref_memcmp(q1, q2, n) };
+    let got_m = unsafe { memsyms::ts_memcmp(p1, p2, n) };
+    let got_b = unsafe { memsyms::ts_bcmp(p1, p2, n) };
+    let high = pos.is_some() && (c.a >= 0x80 || c.b >= 0x80);
+    let descr = || format!("(s1&15={:x}, s2&15={:x}, n={n}, first difference {:?}: s1[i]={:#04x} s2[i]={:#04x}) {c:?}", p1 as usize & 15, p2 as usize & 15, pos, c.a, c.b);
+    ensure!(got_m.signum() == want, format!("memcmp|wrong-sign|{}", if want == 0 { "equal operands" } else if high { "pair with a byte >= 0x80" } else { "pair below 0x80" }), "memcmp{} = {got_m}, expected sign {want}", descr());
+    ensure!((got_b == 0) == (want == 0), format!("bcmp|wrong-zeroness|{}", if want == 0 { "equal operands reported different" } else { "different operands reported equal" }), "bcmp{} = {got_b}, expected {}", descr(), if want == 0 { "0" } else { "non-zero" });
+    w.verify("memcmp/bcmp", None, "", &descr)?;
+
+    rep.nontrivial_if(pos.is_some());
+    rep.class_if(n == 0, "n=0");
+    rep.class_if(pos.is_none() && n > 0, "equal");
+    rep.class_if(pos == Some(0), "diff-first-byte");
+    rep.class_if(n > 0 && pos == Some(n - 1), "diff-last-byte");
+    rep.class_if(high, "pair-with-high-bit");
+    rep.class_if(want < 0, "less");
+    rep.class_if(want > 0, "greater");
+    rep.class_if(n >= 65536, "large");
+    rep.class_if(c.at1 == At::End && c.at2 == At::End, "both-end-at-guard-page");
+    rep.class_if(c.at1 == At::Start && c.at2 == At::Start, "both-start-at-guard-page");
+    rep.class_if((c.at1 == At::End) != (c.at2 == At::End), "one-ends-at-guard-page");
+    Ok(rep)
+}
+
+// ------------------------------------------------------------------------------------ generators
+
+fn any_at() -> impl Strategy<Value = At> {
+    prop_oneof![3 => Just(At::Mid), 2 => Just(At::End), 1 => Just(At::Start)]
+}
+
+fn any_n() -> impl Strategy<Value = usize> {
+    prop_oneof![
+        3 => 0usize..=96,
+        3 => 0usize..=4096,
+        2 => 0usize..=65536,
+        2 => 0usize..=MAX_N,
+        1 => prop::sample::select(vec![MAX_N, MAX_N - 1, MAX_N - 7, 65536, 65535, 4097, 4096, 4095, 4088, 257, 256, 255]),
+    ]
+}
+
+fn copy_rand() -> impl Strategy<Value = CopyCase> {
+    (any::<bool>(), any_n(), 0u8..64, 0u8..64, any_at(), any_at(), any::<bool>(), any::<u8>()).prop_map(|(mv, n, dmis, smis, dst_at, src_at, swap, salt)| CopyCase {
+        op: if mv { CopyOp::Memmove } else { CopyOp::Memcpy },
+        n,
+        dmis: if dst_at == At::Mid { dmis } else { 0 },
+        smis: if src_at == At::Mid { smis } else { 0 },
+        dst_at,
+        src_at,
+        swap,
+        salt,
+    })
+}
+
+fn move_rand() -> impl Strategy<Value = MoveCase> {
+    (any_n(), 0u8..4, -64i64..=64, any::<u16>(), any::<bool>(), 0u8..64, any_at(), any::<u8>()).prop_map(|(n, kind, r, frac, neg, mis, at, salt)| {
+        let lim = n as i64 + 64;
+        let d = match kind {
+            0 => r,                                                      // very close
+            1 => n as i64 + r,                                           // around +n
+            2 => -(n as i64) + r,                                        // around -n
+            _ => {
+                let m = ((frac as u64 * (n as u64 + 1)) >> 16) as i64; // anywhere inside
+                if neg {
+                    -m
+                } else {
+                    m
+                }
+            }
+        };
+        MoveCase { n, delta: d.clamp(-lim, lim), mis: if at == At::Mid { mis } else { 0 }, at, salt }
+    })
+}
+
+fn set_rand() -> impl Strategy<Value = SetCase> {
+    (any_n(), any::<u8>(), prop_oneof![3 => Just(0i32), 1 => any::<i32>()], 0u8..64, any_at(), any::<u8>()).prop_map(|(n, fill, upper, mis, at, salt)| SetCase {
+        n,
+        c: (upper & !0xff) | fill as i32,
+        mis: if at == At::Mid { mis } else { 0 },
+        at,
+        salt,
+    })
+}
+
+fn cmp_rand() -> impl Strategy<Value = CmpCase> {
+    (any_n(), prop_oneof![1 => Just(None), 4 => any::<u16>().prop_map(Some)], any::<u8>(), 1u8..=255, 0u8..64, 0u8..64, any_at(), any_at(), any::<u8>()).prop_map(
+        |(n, posf, a, x, m1, m2, at1, at2, salt)| {
+            let pos = match posf {
+                Some(f) if n > 0 => Some(((f as u64 * n as u64) >> 16) as usize),
+                _ => None,
+            };
+            CmpCase { n, pos, a, b: a ^ x, m1: if at1 == At::Mid { m1 } else { 0 }, m2: if at2 == At::Mid { m2 } else { 0 }, at1, at2, salt }
+        },
+    )
+}
+
+// ------------------------------------------------------------------------------------ enumeration
+
+struct Part {
+    idx: u64,
+    w: u64,
+    nw: u64,
+}
+
+impl Part {
+    fn new(ctx: &Ctx) -> Part {
+        Part { idx: 0, w: ctx.worker as u64, nw: (ctx.nworkers as u64).max(1) }
+    }
+    fn mine(&mut self) -> bool {
+        let m = self.idx % self.nw == self.w;
+        self.idx += 1;
+        m
+    }
+}
+
+/// (dst_at, src_at, dest misalignments, src misalignments)
+fn placements() -> Vec<(At, At, std::ops::Range<u8>, std::ops::Range<u8>)> {
+    vec![
+        (At::Mid, At::Mid, 0..16, 0..16),
+        (At::End, At::Mid, 0..1, 0..16),
+        (At::Mid, At::End, 0..16, 0..1),
+        (At::Start, At::Mid, 0..1, 0..16),
+        (At::Mid, At::Start, 0..16, 0..1),
+        (At::End, At::End, 0..1, 0..1),
+        (At::Start, At::Start, 0..1, 0..1),
+        (At::End, At::Start, 0..1, 0..1),
+        (At::Start, At::End, 0..1, 0..1),
+    ]
+}
+
+/// differing pairs, both orders are enumerated
+const PAIRS_QUICK: [(u8, u8); 4] = [(0x01, 0x02), (0x7f, 0x80), (0x00, 0xff), (0x80, 0x81)];
+const PAIR_BYTES_THOROUGH: [u8; 6] = [0x00, 0x01, 0x7f, 0x80, 0x81, 0xff];
+
+fn exh_copy(ctx: &Ctx, w: &std::cell::RefCell<World>, nmax: usize) {
+    let mut part = Part::new(ctx);
+    let mut total = 0u64;
+    for op in [CopyOp::Memcpy, CopyOp::Memmove] {
+        for n in 0..=nmax {
+            for (dst_at, src_at, dr, sr) in placements() {
+                for dmis in dr.clone() {
+                    for smis in sr.clone() {
+                        for swap in [false, true] {
+                            total += 1;
+                            if !part.mine() {
+                                continue;
+                            }
+                            let case = CopyCase { op, n, dmis, smis, dst_at, src_at, swap, salt: (n as u8).wrapping_mul(7) };
+                            if !ctx.run_one("copy-exh", &case, || check_copy(&mut w.borrow_mut(), &case)) {
+                                return;
+                            }
+                        }
+                    }
+                }
+            }
+        }
+    }
+    ctx.note_exhaustive(format!(
+        "copy-exh: memcpy and memmove on disjoint operands, every n in 0..={nmax} x dest misalignment 0..=15 x src misalignment 0..=15 x both address orders, plus every n with dest/src ending at or starting after a PROT_NONE page x the other operand's 16 misalignments ({total} cases per profile)"
+    ));
+}
+
+fn exh_move(ctx: &Ctx, w: &std::cell::RefCell<World>, nmax: usize) {
+    let mut part = Part::new(ctx);
+    let mut total = 0u64;
+    for n in 0..=nmax {
+        let lim = n as i64 + 8;
+        for delta in -lim..=lim {
+            for (at, mr) in [(At::Mid, 0u8..16), (At::End, 0..1), (At::Start, 0..1)] {
+                for mis in mr {
+                    total += 1;
+                    if !part.mine() {
+                        continue;
+                    }
+                    let case = MoveCase { n, delta, mis, at, salt: (n as u8).wrapping_mul(7).wrapping_add(delta as u8) };
+                    if !ctx.run_one("move-exh", &case, || check_move(&mut w.borrow_mut(), &case)) {
+                        return;
+                    }
+                }
+            }
+        }
+    }
+    ctx.note_exhaustive(format!(
+        "move-exh: memmove inside one buffer, every n in 0..={nmax} x every distance dest-src in -(n+8)..=(n+8) x misalignment 0..=15 of the lower operand, plus the buffer ending at / starting after a PROT_NONE page ({total} cases per profile)"
+    ));
+}
+
+fn exh_set(ctx: &Ctx, w: &std::cell::RefCell<World>, nmax: usize) {
+    let mut part = Part::new(ctx);
+    let mut total = 0u64;
+    for n in 0..=nmax {
+        for fill in 0..=255u8 {
+            for (at, mr) in [(At::Mid, 0u8..16), (At::End, 0..1), (At::Start, 0..1)] {
+                for mis in mr {
+                    // the int argument: plain byte value for every case; for three misalignments
+                    // also forms whose upper bits are set (negative, > 255)
+                    let forms: &[i32] = if mis % 5 == 0 { &[0, -256, 0x100, 0x7fff_ff00] } else { &[0] };
+                    for &upper in forms {
+                        total += 1;
+                        if !part.mine() {
+                            continue;
+                        }
+                        let case = SetCase { n, c: upper | fill as i32, mis, at, salt: (n as u8).wrapping_mul(7) };
+                        if !ctx.run_one("set-exh", &case, || check_set(&mut w.borrow_mut(), &case)) {
+                            return;
+                        }
+                    }
+                }
+            }
+        }
+    }
+    ctx.note_exhaustive(format!(
+        "set-exh: memset, every n in 0..={nmax} x every fill byte 0..=255 x misalignment 0..=15, plus the buffer ending at / starting after a PROT_NONE page; int arguments with upper bits set for misalignments 0,5,10,15 ({total} cases per profile)"
+    ));
+}
+
+fn exh_cmp(ctx: &Ctx, w: &std::cell::RefCell<World>, nmax: usize) {
+    let mut part = Part::new(ctx);
+    let mut total = 0u64;
+    let mut pairs: Vec<(u8, u8)> = Vec::new();
+    if ctx.thorough() {
+        for &a in &PAIR_BYTES_THOROUGH {
+            for &b in &PAIR_BYTES_THOROUGH {
+                if a != b {
+                    pairs.push((a, b));
+                }
+            }
+        }
+    } else {
+        for &(a, b) in &PAIRS_QUICK {
+            pairs.push((a, b));
+            pairs.push((b, a));
+        }
+    }
+    let equal = [(0u8, 0u8)];
+    for n in 0..=nmax {
+        for posi in 0..=n {
+            // posi == n encodes "equal"
+            let pos = if posi == n { None } else { Some(posi) };
+            let prs: &[(u8, u8)] = if pos.is_some() { &pairs } else { &equal };
+            for &(a, b) in prs {
+                for (at1, at2, r1, r2) in placements() {
+                    for m1 in r1.clone() {
+                        for m2 in r2.clone() {
+                            total += 1;
+                            if !part.mine() {
+                                continue;
+                            }
+                            let case = CmpCase { n, pos, a, b, m1, m2, at1, at2, salt: (n as u8).wrapping_mul(7) };
+                            if !ctx.run_one("cmp-exh", &case, || check_cmp(&mut w.borrow_mut(), &case)) {
+                                return;
+                            }
+                        }
+                    }
+                }
+            }
+        }
+    }
+    ctx.note_exhaustive(format!(
+        "cmp-exh: memcmp and bcmp, every n in 0..={nmax} x every position of the first differing byte (and equal operands) x {} ordered differing pairs incl. bytes >= 0x80 x misalignments 0..=15 x 0..=15, plus operands ending at / starting after PROT_NONE pages ({total} cases per profile)",
+        pairs.len()
+    ));
+}
+
+pub fn run(ctx: &Ctx) {
+    let w = std::cell::RefCell::new(World::new());
+    ctx.extra("carrier", serde_json::json!(format!("(i) memsyms: {} with {} #[no_mangle] stripped, #![no_builtins]", memsyms::ORIGIN, memsyms::NO_MANGLE_STRIPPED)));
+
+    if ctx.is_replay() {
+        if let Some(c) = ctx.replay_case::<CopyCase>("copy-exh") {
+            ctx.run_one("copy-exh", &c, || check_copy(&mut w.borrow_mut(), &c));
+        }
+        if let Some(c) = ctx.replay_case::<MoveCase>("move-exh") {
+            ctx.run_one("move-exh", &c, || check_move(&mut w.borrow_mut(), &c));
+        }
+        if let Some(c) = ctx.replay_case::<SetCase>("set-exh") {
+            ctx.run_one("set-exh", &c, || check_set(&mut w.borrow_mut(), &c));
+        }
+        if let Some(c) = ctx.replay_case::<CmpCase>("cmp-exh") {
+            ctx.run_one("cmp-exh", &c, || check_cmp(&mut w.borrow_mut(), &c));
+        }
+    } else {
+        // 2*threshold+word = 40 is the stated exhaustive bound; the thorough tier goes further
+        let nmax = if ctx.thorough() { 72 } else { 40 };
+        exh_copy(ctx, &w, nmax);
+        exh_move(ctx, &w, nmax);
+        exh_set(ctx, &w, nmax);
+        exh_cmp(ctx, &w, 40);
+    }
+
+    ctx.run_prop("copy-rand", ctx.cases(600, 30_000), copy_rand(), |c: &CopyCase| check_copy(&mut w.borrow_mut(), c));
+    ctx.run_prop("move-rand", ctx.cases(600, 30_000), move_rand(), |c: &MoveCase| check_move(&mut w.borrow_mut(), c));
+    ctx.run_prop("set-rand", ctx.cases(400, 20_000), set_rand(), |c: &SetCase| check_set(&mut w.borrow_mut(), c));
+    ctx.run_prop("cmp-rand", ctx.cases(400, 20_000), cmp_rand(), |c: &CmpCase| check_cmp(&mut w.borrow_mut(), c));
+}
